@@ -4,6 +4,8 @@ limb-level inputs. Two limb layouts: 5x52 field / 4x64 scalar (128-bit builds; s
 from .common import *
 
 def h(vs): return ','.join('%x' % v for v in vs)
+def val(vs, bits): return sum(v << (bits * i) for i, v in enumerate(vs))
+def limbs_of(v, bits, n): return [(v >> (bits * i)) & ((1 << bits) - 1) for i in range(n)]
 
 def edge(rng, bits):
     u = rng.random()
@@ -39,8 +41,8 @@ def generate(rng, tier, ctx):
             a, b = fe_in(4, 4), fe_in(4, 4)
             muls = [FS + '.fe_mul_inner', CS + '.fe_mul_inner'] + ([FS + '.fe_mul_inner_struct'] if lay == '64' else [])
             sqrs = [FS + '.fe_sqr_inner', CS + '.fe_sqr_inner'] + ([FS + '.fe_sqr_inner_struct'] if lay == '64' else [])
-            for f in muls: cases.append(('k_run %s a=%s b=%s / r:%d' % (f, h(a), h(b), nf), ('k_run', f)))
-            for f in sqrs: cases.append(('k_run %s a=%s / r:%d' % (f, h(a), nf), ('k_run', f)))
+            for f in muls: cases.append(('k_run %s a=%s b=%s / r:%d' % (f, h(a), h(b), nf), ('k_run', f), '@valmodp:%d:%x' % (lb, val(a, lb) * val(b, lb) % P)))
+            for f in sqrs: cases.append(('k_run %s a=%s / r:%d' % (f, h(a), nf), ('k_run', f), '@valmodp:%d:%x' % (lb, val(a, lb) ** 2 % P)))
             m = rng.choice([1, 2, 8, 31, 32])
             r_ = fe_mag(m)
             nearp = list(P_LIMBS); nearp[0] = (nearp[0] + rng.randint(-2, 2)) & ((1 << (lb + 1)) - 1)
@@ -60,17 +62,19 @@ def generate(rng, tier, ctx):
             cases.append(('k_run %s.scalar_cmov r.d=%s a.d=%s flag=%x / r.d:%d' % (CS, h(sc()), h(sc()), rng.randint(0, 1), ns), ('k_run', CS + '.scalar_cmov')))
             cases.append(('k_run %s.scalar_cond_negate r.d=%s flag=%x / r.d:%d ret' % (CS, h(sc()), rng.randint(0, 1), ns), ('k_run', CS + '.scalar_cond_negate')))
             for S in (CS, SS):
-                cases.append(('k_run %s.scalar_negate a.d=%s / r.d:%d' % (S, h(sc()), ns), ('k_run', S + '.scalar_negate')))
-                cases.append(('k_run %s.scalar_add a.d=%s b.d=%s / r.d:%d ret' % (S, h(sc()), h(sc()), ns), ('k_run', S + '.scalar_add')))
+                x_ = sc(); xv = val(x_, sb)
+                cases.append(('k_run %s.scalar_negate a.d=%s / r.d:%d' % (S, h(x_), ns), ('k_run', S + '.scalar_negate'), h(limbs_of((N - xv) % N, sb, ns))))
+                x_, y_ = sc(), sc(); xv, yv = val(x_, sb), val(y_, sb)
+                cases.append(('k_run %s.scalar_add a.d=%s b.d=%s / r.d:%d ret' % (S, h(x_), h(y_), ns), ('k_run', S + '.scalar_add'), h(limbs_of((xv + yv) % N, sb, ns)) + ' %x' % int(xv + yv >= N)))
             cases.append(('k_run %s.scalar_is_high a.d=%s / ret' % (CS, h(sc())), ('k_run', CS + '.scalar_is_high')))
             cases.append(('k_run %s.scalar_check_overflow a.d=%s / ret' % (CS, h(sc(True))), ('k_run', CS + '.scalar_check_overflow')))
             cases.append(('k_run %s.scalar_is_zero a.d=%s / ret' % (CS, h(sc())), ('k_run', CS + '.scalar_is_zero')))
             cases.append(('k_run %s.int_cmov r=%x a=%x flag=%x / r:1' % (CS, rng.randint(0, 1000), rng.randint(0, 1000), rng.randint(0, 1)), ('k_run', CS + '.int_cmov')))
             # scalar multiplication kernels: the 512-bit product, its reduction (fed with ANY 512-bit value), and both together
             x, y = sc(), sc()
-            cases.append(('k_run %s.scalar_mul_512 a.d=%s b.d=%s / %s:%d' % (SS, h(x), h(y), 'l8' if lay == '64' else 'l', 2 * ns), ('k_run', SS + '.scalar_mul_512')))
+            cases.append(('k_run %s.scalar_mul_512 a.d=%s b.d=%s / %s:%d' % (SS, h(x), h(y), 'l8' if lay == '64' else 'l', 2 * ns), ('k_run', SS + '.scalar_mul_512'), h(limbs_of(val(x, sb) * val(y, sb), sb, 2 * ns))))
             wide = [edge(rng, sb) for _ in range(2 * ns)]
-            cases.append(('k_run %s.scalar_reduce_512 l=%s / r.d:%d' % (SS, h(wide), ns), ('k_run', SS + '.scalar_reduce_512')))
+            cases.append(('k_run %s.scalar_reduce_512 l=%s / r.d:%d' % (SS, h(wide), ns), ('k_run', SS + '.scalar_reduce_512'), h(limbs_of(val(wide, sb) % N, sb, ns))))
             # carry-maximising inputs: the reduction folds 512 -> 385 -> 258 -> 256 bits by adding (high part) * (2^256 - n);
             # build l BACKWARDS from a chosen 258-bit intermediate p (and 385-bit m) whose limbs are all-ones where a carry
             # arrives, so that every carry chain of the last two folding stages is exercised (needs ~2^-64 luck otherwise)
@@ -91,10 +95,12 @@ def generate(rng, tier, ctx):
                 if 0 <= l_lo < (1 << 256):
                     lv = l_lo | (l_hi << 256)
                     limbs = [(lv >> (sb * i)) & ((1 << sb) - 1) for i in range(2 * ns)]
-                    cases.append(('k_run %s.scalar_reduce_512 l=%s / r.d:%d' % (SS, h(limbs), ns), ('k_run', SS + '.scalar_reduce_512.carry-crafted')))
-            cases.append(('k_run %s.scalar_mul a.d=%s b.d=%s / r.d:%d' % (SS, h(x), h(y), ns), ('k_run', SS + '.scalar_mul')))
+                    cases.append(('k_run %s.scalar_reduce_512 l=%s / r.d:%d' % (SS, h(limbs), ns), ('k_run', SS + '.scalar_reduce_512.carry-crafted'), h(limbs_of(lv % N, sb, ns))))
+            cases.append(('k_run %s.scalar_mul a.d=%s b.d=%s / r.d:%d' % (SS, h(x), h(y), ns), ('k_run', SS + '.scalar_mul'), h(limbs_of(val(x, sb) * val(y, sb) % N, sb, ns))))
             cases.append(('k_run %s.scalar_half a.d=%s / r.d:%d' % (SS, h(sc()), ns), ('k_run', SS + '.scalar_half')))
-            cases.append(('k_run %s.scalar_mul_shift_var a.d=%s b.d=%s shift=%x / r.d:%d' % (SS, h(sc()), h(sc()), rng.choice([256, 257, 272, 319, 320, 383, 384, 384, 447, 448, 500, 511]), ns), ('k_run', SS + '.scalar_mul_shift_var')))
+            x_, y_, sh_ = sc(), sc(), rng.choice([256, 257, 272, 319, 320, 383, 384, 384, 447, 448, 500, 511])
+            cases.append(('k_run %s.scalar_mul_shift_var a.d=%s b.d=%s shift=%x / r.d:%d' % (SS, h(x_), h(y_), sh_, ns), ('k_run', SS + '.scalar_mul_shift_var'),
+                          h(limbs_of((val(x_, sb) * val(y_, sb) + (1 << (sh_ - 1))) >> sh_, sb, ns))))
             small = rng.r.getrandbits(rng.randint(1, 250))
             sm = [(small >> (sb * i)) & ((1 << sb) - 1) for i in range(ns)]
             cases.append(('k_run %s.scalar_cadd_bit r.d=%s bit=%x flag=%x / r.d:%d' % (SS, h(sm), rng.randint(0, 250), rng.randint(0, 1), ns), ('k_run', SS + '.scalar_cadd_bit')))
@@ -127,8 +133,8 @@ def generate(rng, tier, ctx):
         return (hi << 32) | lo
     for _ in range(8 * n):
         a, b = half_edge(), half_edge()
-        cases.append(('k_run int128struct.umul128 a=%x b=%x / ret hi:1' % (a, b), ('k_run', 'int128struct.umul128')))
-        cases.append(('k_run int128struct.u128_mul a=%x b=%x / r.lo r.hi' % (a, b), ('k_run', 'int128struct.u128_mul')))
+        cases.append(('k_run int128struct.umul128 a=%x b=%x / ret hi:1' % (a, b), ('k_run', 'int128struct.umul128'), '%x %x' % ((a * b) & ((1 << 64) - 1), (a * b) >> 64)))
+        cases.append(('k_run int128struct.u128_mul a=%x b=%x / r.lo r.hi' % (a, b), ('k_run', 'int128struct.u128_mul'), '%x %x' % ((a * b) & ((1 << 64) - 1), (a * b) >> 64)))
         cases.append(('k_run int128struct.u128_accum_mul a=%x b=%x r.lo=%x r.hi=%x / r.lo r.hi' % (a, b, half_edge(), rng.r.getrandbits(40)), ('k_run', 'int128struct.u128_accum_mul')))
         cases.append(('k_run int128struct.u128_accum_u64 a=%x r.lo=%x r.hi=%x / r.lo r.hi' % (a, half_edge(), half_edge() >> 1), ('k_run', 'int128struct.u128_accum_u64')))
         cases.append(('k_run int128struct.u128_rshift n=%x r.lo=%x r.hi=%x / r.lo r.hi' % (rng.choice([0, 1, 31, 32, 33, 52, 63, 64, 65, 100, 127]), half_edge(), half_edge()), ('k_run', 'int128struct.u128_rshift')))
@@ -173,6 +179,29 @@ def generate(rng, tier, ctx):
         cases.append(('f_run group.ge_set_ge_zinv %s zi=%s / %s' % (aff('a', A_, 0), fv(sv), OG), ('f_run', 'ge_set_ge_zinv')))
         for xq in (A_[0], B_[0], (A_[0] + 1) % P):
             cases.append(('f_run group.gej_eq_x_var %s x=%s / ret' % (jac('a', A_, za, 0), fv(xq)), ('f_run', 'gej_eq_x_var')))
+        for v in (A_[0], (A_[0] + 1) % P, 0, 1, 4, P - 1, pow(rng.scalar(0.3) % P, 2, P), rng.scalar(0.3) % P):
+            cases.append(('f_run group.fe_sqrt a=%s / r ret' % fv(v), ('f_run', 'fe_sqrt')))
+            cases.append(('f_run group.ge_set_xquad x=%s / r.x r.y ret' % fv(v), ('f_run', 'ge_set_xquad')))
+            cases.append(('f_run group.ge_set_xo_var x=%s odd=%x / r.x r.y ret' % (fv(v), rng.randint(0, 1)), ('f_run', 'ge_set_xo_var')))
+        cases.append(('f_run group.fe_equal a=%s b=%s / ret' % (fv(A_[0]), fv(rng.choice([A_[0], B_[0], A_[0] + 0]))), ('f_run', 'fe_equal')))
         for Q in (A_, (A_[0], (A_[1] + 1) % P), None):
             cases.append(('f_run group.ge_is_valid_var %s / ret' % aff('a', Q, 0), ('f_run', 'ge_is_valid_var')))
+    # ---- mode F, set `ellswift`: the ElligatorSwift field algorithms and the inversion-based conversions
+    for k in range(n):
+        A_ = rng.point(); za = rng.randint(1, P - 1)
+        u = rng.choice([0, 1, 2, P - 1, rng.scalar(0.3) % P, rng.scalar(0.3) % P]); t = rng.choice([0, 1, P - 1, rng.scalar(0.3) % P, rng.scalar(0.3) % P])
+        cases.append(('f_run ellswift.xswiftec_frac_var u=%s t=%s / xn xd' % (fv(u), fv(t)), ('f_run', 'xswiftec_frac_var')))
+        cases.append(('f_run ellswift.xswiftec_var u=%s t=%s / x' % (fv(u), fv(t)), ('f_run', 'xswiftec_var')))
+        cases.append(('f_run ellswift.swiftec_var u=%s t=%s / p.x p.y' % (fv(u), fv(t)), ('f_run', 'swiftec_var')))
+        for c in range(8):
+            xq = rng.choice([A_[0], rng.point()[0]])                                       # contract: x_in is the x of a curve point
+            uq = rng.choice([1, 2, rng.scalar(0.3) % P, rng.scalar(0.3) % P])       # u = 0 is outside the function's contract
+            cases.append(('f_run ellswift.xswiftec_inv_var x_in=%s u_in=%s c=%x / t?ret ret' % (fv(xq), fv(uq), c), ('f_run', 'xswiftec_inv_var')))
+        for xq in (A_[0], (A_[0] + 1) % P, 0, 5):
+            cases.append(('f_run ellswift.ge_x_on_curve_var x=%s / ret' % fv(xq), ('f_run', 'ge_x_on_curve_var')))
+            d = rng.randint(1, P - 1)
+            cases.append(('f_run ellswift.ge_x_frac_on_curve_var xn=%s xd=%s / ret' % (fv(xq * d % P), fv(d)), ('f_run', 'ge_x_frac_on_curve_var')))
+        cases.append(('f_run ellswift.ge_set_gej %s / r.x r.y r.infinity' % jac('a', A_, za, 0), ('f_run', 'ge_set_gej')))
+        for ia in (0, 1):
+            cases.append(('f_run ellswift.ge_set_gej_var %s / r.x r.y r.infinity' % jac('a', A_, za, ia), ('f_run', 'ge_set_gej_var')))
     return cases
